@@ -86,7 +86,7 @@ def cfg_for(name):
 
 
 def continuation(seed):
-    s = seed * 10 + (seed % 5)           # plain identifier class (gen.py: seed % 10 in 0..4)
+    s = seed * 10 + (seed % 4)           # plain identifier class (gen.py: seed % 10 in 0..3)
     g = Gen(s, napps=2, nsides=3, steps=45, names=NAMES, restarts=False, p_illegal=0.03, bad_client_version=False)
     return g.gen()
 
